@@ -45,6 +45,7 @@ struct World {
   bool must_run[MAXI] = {};            // enqueue returned before stop()/destructor began
   bool stop_begun = false, tok_begun = false, tok_ended = false, dtor_ended = false;
   int in_completion = 0;
+  std::atomic<bool> done_flag[MAXI] = {};   // set at the end of a completion; wait_ran() spins on it (sync_wait-like)
 
   void complete(int i, bool done) {
     if (++completions[i] > 1) rt::fail("item%d completed twice", i);
@@ -60,7 +61,10 @@ struct World {
     rt::obs("item%d.%s", i, done ? "done" : "value");
     rt::point("in-completion");
     --in_completion;
+    done_flag[i].store(true);
   }
+  // block until item i has completed (the runtime parks the spinning thread)
+  void wait_ran(int i) { while (!done_flag[i].load()) {} }
   void enq_begin(int i) {
     enq_begun[i] = true;
     for (int a = 0; a < n; ++a) if (enq_ended[a]) pred[i] |= 1u << a;
@@ -208,6 +212,24 @@ SCENARIO(loop_tok) {
   w.finish(true);
 }
 
+// the client waits for every completion before it goes on: a lost wake-up is a deadlock
+SCENARIO(loop_wait) {
+  LoopWorld w(2);
+  int t1 = rt::spawn([&] { w.enq(0); w.wait_ran(0); w.enq(1); w.wait_ran(1); w.stop(); });
+  w.run();
+  rt::join(t1);
+  w.finish(true);
+}
+SCENARIO(loop_wait2) {
+  LoopWorld w(2);
+  int t1 = rt::spawn([&] { w.enq(0); w.wait_ran(0); });
+  int t2 = rt::spawn([&] { w.enq(1); w.wait_ran(1); });
+  int t3 = rt::spawn([&] { rt::join(t1); rt::join(t2); w.stop(); });
+  w.run();
+  rt::join(t1); rt::join(t2); rt::join(t3);
+  w.finish(true);
+}
+
 // ------------------------------------------------------------------ single_thread_context
 namespace {
 struct StcWorld : World {
@@ -224,6 +246,21 @@ SCENARIO(stc) {
     int t2 = rt::spawn([&] { w.ops.enq(sched, 1); w.ops.enq(sched, 2); });
     w.ops.enq(sched, 0);
     rt::join(t2);
+    w.stop_begun = true;
+    rt::obs("dtor.begin");
+  }
+  w.dtor_ended = true;
+  rt::obs("dtor.end");
+  if (rt::alive() != 1) rt::fail("~single_thread_context returned while %d other thread(s) still run", rt::alive() - 1);
+  w.finish(true);
+}
+SCENARIO(stc_wait) {
+  StcWorld w(2);
+  {
+    unifex::single_thread_context ctx;
+    auto sched = ctx.get_scheduler();
+    w.ops.enq(sched, 0); w.wait_ran(0);
+    w.ops.enq(sched, 1); w.wait_ran(1);
     w.stop_begun = true;
     rt::obs("dtor.begin");
   }
@@ -399,6 +436,30 @@ SCENARIO(pool_1) {
     unifex::static_thread_pool pool(1);          // T1
     auto sched = pool.get_scheduler();
     w.ops.enq(sched, 0); w.ops.enq(sched, 1);
+    w.stop_begun = true;
+    rt::obs("dtor.begin");
+  }
+  w.after_dtor();
+}
+SCENARIO(pool_1_wait) {
+  PoolWorld w(2, 1);
+  {
+    unifex::static_thread_pool pool(1);
+    auto sched = pool.get_scheduler();
+    w.ops.enq(sched, 0); w.wait_ran(0);
+    w.ops.enq(sched, 1); w.wait_ran(1);
+    w.stop_begun = true;
+    rt::obs("dtor.begin");
+  }
+  w.after_dtor();
+}
+SCENARIO(pool_2_wait) {
+  PoolWorld w(2, 2);
+  {
+    unifex::static_thread_pool pool(2);
+    auto sched = pool.get_scheduler();
+    w.ops.enq(sched, 0); w.wait_ran(0);
+    w.ops.enq(sched, 1); w.wait_ran(1);
     w.stop_begun = true;
     rt::obs("dtor.begin");
   }
